@@ -32,15 +32,19 @@ class FakeRun:
 RUN = FakeRun()
 
 
-def parse_impl(which, faulty, data, invocation=3):
-    """canonical: ('reject', invalid?) | ('ok', [[(crit, unit, value, iteration, invocation)...]...]) |
-    ('crash', exception class name)"""
-    cls = CLASSES[which]
-    a = cls(faulty, None)
+def new_adapter(which, faulty):
+    a = CLASSES[which](faulty, None)
     if which == 5:
         a._use_formatted_time = True
     if which == 6:
         a._use_formatted_time = False
+    return a
+
+
+def parse_impl(which, faulty, data, invocation=3, instance=None):
+    """canonical: ('reject', invalid?) | ('ok', [[(crit, unit, value, iteration, invocation)...]...]) |
+    ('crash', exception class name); instance: an adapter object that parsed other outputs before"""
+    a = instance if instance is not None else new_adapter(which, faulty)
     try:
         dps = a.parse_data(data, RUN, invocation)
     except ResultsIndicatedAsInvalid:
